@@ -138,8 +138,16 @@ def lemma(name, props, build, doc=''):
     LEMMAS[name] = (set(props), build, doc)
 
 
-def framescan(name, props, fn, doc=''):
-    """A syntactic frame obligation over the AST (back end `ast-frame`): fn(sources, twin) -> list of problems."""
+def framescan(name, props, fn, doc='', side_condition=False):
+    """A syntactic frame obligation over the AST (back end `ast-frame`): fn(sources, twin) -> list of problems.
+    `side_condition=True`: the scan establishes a side condition under which the contracts are complete / an assumption is justified
+    (who else writes to the transport, is a signer in the shape whose library call conforms, ...).  When it does not hold nothing is
+    refuted -- the contracts just no longer cover the code -- so its problems are reported as UNDECIDED, never as a violation."""
+    if side_condition:
+        inner = fn
+
+        def fn(sources, twin, _inner=inner):
+            return [x if str(x).startswith('UNDECIDED:') else 'UNDECIDED: ' + str(x) for x in _inner(sources, twin)]
     FRAMESCANS.append((name, set(props), fn, doc))
 
 
